@@ -78,6 +78,9 @@ pub struct Profile {
     pub final_dump: bool,
     /// only whole-second advances (ring H)
     pub whole_seconds: bool,
+    /// chance that a mutation is followed at once by a loud get of its key
+    /// (pins a wrong value / flags / CAS on the command that caused it)
+    pub verify_pct: u32,
 }
 
 impl Profile {
@@ -100,6 +103,7 @@ impl Profile {
             far_advance: 100_000,
             final_dump: true,
             whole_seconds: true,
+            verify_pct: 60,
         }
     }
 }
@@ -428,8 +432,24 @@ impl<'a> Gen<'a> {
             };
             for _ in 0..batch {
                 let r = self.command();
+                let kind = crate::wire::op_info(r.opcode).kind;
+                let key = r.key.clone();
                 sc.events.push(Ev::Send { c, req: r });
                 i += 1;
+                let mutating = !matches!(
+                    kind,
+                    crate::wire::Kind::Get
+                        | crate::wire::Kind::Noop
+                        | crate::wire::Kind::Version
+                        | crate::wire::Kind::Stat
+                        | crate::wire::Kind::Flush
+                        | crate::wire::Kind::Quit
+                );
+                if mutating && self.rng.chance(self.p.verify_pct as u64, 100) {
+                    let mut g = SymReq::get(op::GET, &key);
+                    g.opaque = self.opaque();
+                    sc.events.push(Ev::Send { c, req: g });
+                }
             }
             sc.events.push(Ev::Deliver { c, n: u32::MAX });
         }
